@@ -203,6 +203,34 @@ def _is_ws(c):
 
 OPAQUE = "\x00SYM\x00"
 
+_VARSETS = {}  # id of a char variable term -> frozenset of byte values it may take (from the alphabet)
+_POSS = {}
+
+
+def possible(t):
+    """over-approximation of the values char term t can take (None = unknown)"""
+    if z3.is_bv_value(t):
+        return frozenset([t.as_long()])
+    k = t.get_id()
+    r = _POSS.get(k, 0)
+    if r != 0:
+        return r
+    r = _VARSETS.get(k)
+    if r is None and z3.is_app(t):
+        kind = t.decl().kind()
+        if kind == z3.Z3_OP_ITE:
+            a, b = possible(t.arg(1)), possible(t.arg(2))
+            r = None if a is None or b is None else a | b
+        elif kind in (z3.Z3_OP_BADD, z3.Z3_OP_BSUB) and t.num_args() == 2:
+            x, y = t.arg(0), t.arg(1)
+            if z3.is_bv_value(y) and possible(x) is not None:
+                d = y.as_long() if kind == z3.Z3_OP_BADD else -y.as_long()
+                r = frozenset((v + d) % 256 for v in possible(x))
+            elif z3.is_bv_value(x) and kind == z3.Z3_OP_BADD and possible(y) is not None:
+                r = frozenset((v + x.as_long()) % 256 for v in possible(y))
+    _POSS[k] = r
+    return r
+
 
 class SymStr:
     """bounded symbolic string: `chars` (list of BitVec8 terms, capacity) + `len` (16-bit term)"""
@@ -219,6 +247,7 @@ class SymStr:
         self.off = off  # None = 0; else a 16-bit term (a *view* into base: no char terms are built)
         self.cap = len(base)
         self.len = iv(length) if isinstance(length, int) else z3.simplify(length)
+        self.lmin = self.len.as_signed_long() if z3.is_bv_value(self.len) else 0  # known lower bound of len
         self._memo = {}
         self._at = {}
 
@@ -358,12 +387,16 @@ class SymStr:
             return o
         n1 = self.concrete_len()
         if n1 is not None:
-            return SymStr(self.chars[:n1] + o.chars, n1 + o.len)
+            r = SymStr(self.chars[:n1] + o.chars, n1 + o.len)
+            r.lmin = max(r.lmin, n1 + o.lmin)
+            return r
         chars = []
         for j in range(self.cap + o.cap):
             a = self.chars[j] if j < self.cap else cv(0)
             chars.append(_ite(iv(j) < self.len, a, o.at(iv(j) - self.len)))
-        return SymStr(chars, self.len + o.len)
+        r = SymStr(chars, self.len + o.len)
+        r.lmin = max(r.lmin, self.lmin + o.lmin)
+        return r
 
     def __radd__(self, o):
         if isinstance(o, str):
@@ -530,6 +563,28 @@ class SymStr:
         if old.is_concrete() and new.is_concrete() and len(old.to_py()) == 1 and len(new.to_py()) == 1 and count == -1:
             o, n = old.chars[0], new.chars[0]
             return SymStr([z3.If(c == o, n, c) for c in self.chars], self.len)
+        if old.is_concrete() and new.is_concrete() and len(old.to_py()) == 1 and count == -1:
+            # single character -> constant text, merged (no fork): guarded emission + compaction
+            from fv import sxm
+            o, rep = old.chars[0], new.to_py()
+            blocks = []
+            ch = self.chars
+            n0 = self.concrete_len()
+            for i in range(self.cap):
+                inr = (i < n0) if n0 is not None else (True if i < self.lmin else iv(i) < self.len)
+                if inr is False:
+                    continue
+                ps = possible(ch[i])
+                if z3.is_bv_value(ch[i]) or (ps is not None and o.as_long() not in ps):
+                    eq = z3.is_bv_value(ch[i]) and ch[i].as_long() == o.as_long()
+                    blocks.append([(inr, [cv(r) for r in rep] if eq else [ch[i]])])
+                else:
+                    eq = ch[i] == o
+                    hit = eq if inr is True else z3.And(inr, eq)
+                    miss = z3.Not(eq) if inr is True else z3.And(inr, z3.Not(eq))
+                    alts = [(hit, [cv(r) for r in rep]), (miss, [ch[i]])]
+                    blocks.append((alts, inr is True))
+            return sxm.compact_blocks(blocks)
         # general: occurrences located one by one (forks on the number of occurrences)
         out = SymStr.const("")
         rest = self
@@ -602,6 +657,116 @@ class SymStr:
 
     def __lt__(self, o):
         raise Unsupported("string ordering")
+
+
+class ChoiceStr(SymStr):
+    """finite-choice string: the value is options[k] for a symbolic index k.  Operations with
+    concrete arguments are computed per option with Python's own str methods and give another
+    ChoiceStr over the same index, so no character-level terms are needed."""
+
+    def __init__(self, index, options):
+        self.index = index
+        self.options = [str(o) for o in options]
+        cap = max([len(o) for o in self.options] + [0])
+        chars = []
+        for i in range(cap):
+            e = cv(0)
+            for j in reversed(range(len(self.options))):
+                if i < len(self.options[j]):
+                    e = z3.If(index == j, cv(self.options[j][i]), e)
+            chars.append(e)
+        ln = iv(0)
+        for j in reversed(range(len(self.options))):
+            ln = z3.If(index == j, iv(len(self.options[j])), ln)
+        SymStr.__init__(self, chars, ln)
+        self.lmin = min([len(o) for o in self.options] + [0]) if self.options else 0
+        # compatibility with standins.enum_value
+        self.enum_index, self.enum_options = index, self.options
+
+    def _map(self, f):
+        return ChoiceStr(self.index, [f(o) for o in self.options])
+
+    def _cond(self, pred):
+        hits = [self.index == j for j, o in enumerate(self.options) if pred(o)]
+        if len(hits) == len(self.options):
+            return z3.BoolVal(True)
+        return z3.Or(*hits) if hits else z3.BoolVal(False)
+
+    def lower(self):
+        return self._map(str.lower)
+
+    def upper(self):
+        return self._map(str.upper)
+
+    def capitalize(self):
+        return self._map(str.capitalize)
+
+    def strip(self, chars=None):
+        return self._map(lambda o: o.strip(chars)) if not isinstance(chars, SymStr) else SymStr.strip(self, chars)
+
+    def lstrip(self, chars=None):
+        return self._map(lambda o: o.lstrip(chars)) if not isinstance(chars, SymStr) else SymStr.lstrip(self, chars)
+
+    def rstrip(self, chars=None):
+        return self._map(lambda o: o.rstrip(chars)) if not isinstance(chars, SymStr) else SymStr.rstrip(self, chars)
+
+    def replace(self, old, new, count=-1):
+        if isinstance(old, str) and isinstance(new, str):
+            return self._map(lambda o: o.replace(old, new, count))
+        return SymStr.replace(self, old, new, count)
+
+    def __add__(self, o):
+        if isinstance(o, str):
+            return self._map(lambda x: x + o)
+        if isinstance(o, SymStr) and o.is_concrete():
+            return self._map(lambda x: x + o.to_py())
+        return SymStr.__add__(self, o)
+
+    def __radd__(self, o):
+        if isinstance(o, str):
+            return self._map(lambda x: o + x)
+        return NotImplemented
+
+    def eq_t(self, o):
+        if isinstance(o, str):
+            return self._cond(lambda x: x == o)
+        if isinstance(o, SymStr) and o.is_concrete() and not isinstance(o, ChoiceStr):
+            t = o.to_py()
+            return self._cond(lambda x: x == t)
+        if isinstance(o, ChoiceStr):
+            pairs = [z3.And(self.index == i, o.index == j) for i, a in enumerate(self.options)
+                     for j, b in enumerate(o.options) if a == b]
+            return z3.Or(*pairs) if pairs else z3.BoolVal(False)
+        return SymStr.eq_t(self, o)
+
+    def startswith(self, p):
+        if isinstance(p, (str, tuple)):
+            return mk_bool(self._cond(lambda x: x.startswith(p)))
+        return SymStr.startswith(self, p)
+
+    def endswith(self, p):
+        if isinstance(p, (str, tuple)):
+            return mk_bool(self._cond(lambda x: x.endswith(p)))
+        return SymStr.endswith(self, p)
+
+    def find_t(self, sub, start=0):
+        if isinstance(sub, str) and isinstance(start, int):
+            r = iv(-1)
+            for j in reversed(range(len(self.options))):
+                r = z3.If(self.index == j, iv(self.options[j].find(sub, start)), r)
+            return z3.simplify(r)
+        return SymStr.find_t(self, sub, start)
+
+    def __getitem__(self, k):
+        if isinstance(k, slice) and all(isinstance(x, (int, type(None))) for x in (k.start, k.stop, k.step)):
+            return self._map(lambda o: o[k])
+        return SymStr.__getitem__(self, k)
+
+    def __hash__(self):
+        return SymStr.__hash__(self)
+
+    def __repr__(self):
+        return f"ChoiceStr({self.options})"
 
 
 def mk_str(s):
@@ -780,12 +945,17 @@ class Engine:
     # -- symbolic inputs ---------------------------------------------------------
     def string(self, name, cap, alphabet=None, min_len=0, max_len=None):
         chars = [z3.BitVec(f"{name}_{i}", CW) for i in range(cap)]
-        ln = z3.BitVec(f"{name}_len", IW)
-        self.base.append(ln >= min_len)
-        self.base.append(ln <= (cap if max_len is None else max_len))
+        if min_len == cap:
+            ln = iv(cap)  # fixed length: positions stay concrete
+        else:
+            ln = z3.BitVec(f"{name}_len", IW)
+            self.base.append(ln >= min_len)
+            self.base.append(ln <= (cap if max_len is None else max_len))
         if alphabet is not None:
+            vs = frozenset(ord(a) for a in alphabet)
             for c in chars:
                 self.base.append(z3.Or(*[c == ord(a) for a in alphabet]))
+                _VARSETS[c.get_id()] = vs
         else:
             for c in chars:
                 self.base.append(z3.And(z3.UGE(c, 9), z3.ULE(c, 126)))
